@@ -23,6 +23,21 @@ def templates(pyver, tier, rng=None):
     add("single-expr", "f(x)\n", "single")
     add("eval-lambda", "lambda a, *b, c=1, **d: (yield)", "eval")
     add("eval-genexp-multiline", "(x\nfor x in\ny\nif x)", "eval")
+    evals = ["[i for i in x if i]", "{k: v for k, v in x}", "(yield)", "lambda *a, k=1, **kw: (a, k, kw)", "a if b else c if d else e",
+             "f'{a!r:>{w}} {b}'", "x[1:2, ::3, ...]", "a < b <= c != d", "not (a and b or c)", "(a, *b, c)", "{**a, 'k': 1}", "[*a, *b]",
+             "f(*a, k=1, **kw)", "1 if 0 else 2", "-(1e999 - 1e999)", "(0.0, -0.0, 1, True, 1.0, 'a', b'a')", "x in {1, 2, 3}",
+             "a.b.c(d)[e]", "await_ + 1", "(lambda: (yield from x))", "\n".join(["(a +"] + ["b%d +" % i for i in range(40)] + ["c)"]),
+             "[" + ", ".join("n%d" % i for i in range(300)) + "]", "'%s' % (a,)", "a @ b ** -c // d % e << f >> g & h ^ i | j"]
+    if pyver >= (3, 8):
+        evals += ["(y := f(x)) and y", "[y := 1, y ** 2]", "f'{x=}'"]
+    for n, e in enumerate(evals):
+        add("eval-%d" % n, e, "eval")
+    singles = ["x", "x = 1", "x += 1; y = 2", "del x", "import a.b as c", "from a import *", "assert x, 'm'", "global g; g = 1",
+               "if a:\n    b\nelse:\n    c\n", "for i in x:\n    i\n", "while a:\n    break\n", "with a as b:\n    b\n",
+               "try:\n    a\nexcept E:\n    b\n", "def f(a, b=1):\n    'doc'\n    return a\n", "class A(B, metaclass=M):\n    x: int = 1\n",
+               "async def f():\n    async with a as b:\n        await b\n", "x: int", "x: int = 1", "f(\n 1,\n 2)\n", "raise E from None", "a, b = b, a", "print(x)", "lambda: 1"]
+    for n, e in enumerate(singles):
+        add("single-%d" % n, e if e.endswith("\n") else e + "\n", "single")
     for opt in (1, 2):
         add("opt%d-assert-doc" % opt, 'def f(a):\n    """doc"""\n    assert a, "m"\n    if __debug__:\n        return 1\n    return 2\n', "exec", opt)
         add("opt%d-class-doc" % opt, 'class A:\n    """doc"""\n    def m(self):\n        "mdoc"\n        return "s"\n', "exec", opt)
